@@ -42,7 +42,8 @@ fn main() -> io::Result<ExitCode> {
     let cli = match Cli::parse() {
         Ok(cli) => cli,
         Err(e) => {
-            writeln!(err, "Error: {e}")?;
+            // the exit status must not depend on whether stderr is writable
+            let _ = writeln!(err, "Error: {e}");
             return Ok(ExitCode::from(2));
         }
     };
@@ -62,7 +63,8 @@ fn main() -> io::Result<ExitCode> {
         }
     } else {
         real_main(&cli).or_else(|e| {
-            write!(err, "{}", ErrorColor::new(&e, cli.color_errors()))?;
+            // the exit status must not depend on whether stderr is writable
+            let _ = write!(err, "{}", ErrorColor::new(&e, cli.color_errors()));
             Ok(e.report())
         })
     }
